@@ -251,6 +251,11 @@ Ltac pose_nn :=
              lazymatch goal with _ : 1 <= gweight g |- _ => fail | _ => pose proof (gweight_pos g) end
          end.
 
+Lemma zlen_l_yank {A} (l : list A) i : zlen (l_yank l i) = zlen l.
+Proof. rewrite <- !wsum_cnt. apply wsum_l_yank. Qed.
+Lemma zlen_l_shove {A} (l : list A) i : zlen (l_shove l i) = zlen l.
+Proof. rewrite <- !wsum_cnt. apply wsum_l_shove. Qed.
+
 Create HintDb wdb.
 #[export] Hint Rewrite @wsum_cons @wsum_nil @wsum_app @wsum_rev @wsum_l_yank @wsum_l_shove @wsum_ins
-  iweight_list @zlen_cons' @zlen_nil' @zlen_app' @zlen_rev' @zlen_map' @zlen_repeat' @zlen_upd' @wsum_cnt : wdb.
+  iweight_list @zlen_cons' @zlen_nil' @zlen_app' @zlen_rev' @zlen_map' @zlen_repeat' @zlen_upd' @wsum_cnt @zlen_l_yank @zlen_l_shove : wdb.
